@@ -8,12 +8,12 @@ from tree import load_history
 PID = "C17"
 HERE = os.path.dirname(os.path.abspath(__file__))
 DRIVER = os.path.join(HERE, "drive_c17.py")
-FIELDS = ("op", "ev", "langs", "ret", "how", "lang")
+FIELDS = ("op", "ev", "langs", "ret", "w", "how", "lang")
 
 
 def short(h):
     if h["op"] == "register":
-        return "reg(k%d,%s,%s)" % (h["ev"], "+".join(h["langs"]) or "none", h["ret"])
+        return "reg(k%d,%s,%s%s)" % (h["ev"], "+".join(h["langs"]) or "none", h["ret"], "w" if h.get("w") else "")
     return "notify(k%d,%s)" % (h["ev"], h["lang"])
 
 
@@ -38,7 +38,7 @@ def run(tier, seed):
         PID, tier, seed, DRIVER, "EventManagerTrace", "EventManagerTrace.cfg", mc, [], sig, samples,
         assumptions=["a handler that returns nothing (None) contributes no flag but its data is handed on, as the code and the "
                      "default handlers do", "any return word other than UNPROCESSED contributes SUCCESS",
-                     "stub handlers write out_data only when they return a processed word", "TLC, CommunityModules Json"],
+                     "stub handlers write out_data when they return a processed word; the 'w' variant also writes before declining; the data the requester reads after notify is judged unless a declining handler wrote last", "TLC, CommunityModules Json"],
         impl_name="EventManager (notify loop)",
         rule="tree nodes are register/notify calls on the real EventManager with recording stub handlers; every notify is judged "
              "by the contract operators (which handlers, order, data seen, stop point, returned flags); a trace = one root-to-leaf history")
